@@ -234,10 +234,18 @@ class M(Model):
             out.append(("action_mask is not 'cell empty and digit absent from row/column/box' of the board", ""))
         return out
 
-    # ---- optional: constructive solution for a 'solve' plan mode (not used by the current drivers)
-    def solve_actions(self, s):
-        sol = solve(s.board)
+    # ---- constructive moves for the 'solve' plan mode
+    def solve_action(self, s, r=0):
+        """A (row, col, digit) that keeps the puzzle on a path to its solution (r picks the cell)."""
+        b = np.asarray(s.board).astype(np.int64)
+        if b.shape != (N, N) or out_of_range(b) or not (b == -1).any():
+            return None
+        sol = getattr(self, "_sol", None)
+        if sol is None or not ((b == -1) | (b == sol)).all():
+            sol = solve(b, budget=20000) if not duplicates(b) else None
+            self._sol = sol
         if sol is None:
             return None
-        b = np.asarray(s.board)
-        return [[int(r), int(c), int(sol[r, c])] for r, c in np.argwhere(b == -1)]
+        empt = np.argwhere(b == -1)
+        rr, cc = empt[int(r) % len(empt)]
+        return [int(rr), int(cc), int(sol[rr, cc])]
